@@ -229,6 +229,13 @@ def run(ctx, rep):
             rows, ex = seqgen.sequences(F, cd, [binop(op, lhs=shape), Opaque("state"), Opaque("depth")])
             rows_all += rows
             ex_all = ex_all or ex
+        # multiplicity is judged apart from the order (the order of these two shapes is a known finding; a target evaluated twice is another matter)
+        seqs_ = [r["seq"] for r in rows_all if r["seq"] is not None]
+        twice = sorted({show(sq) for sq in seqs_ for tag in ("lhs", "rhs", "lhsindex", "lhschain") if len(positions(sq, tag)) > 1})
+        rep.ob("C15.once", "`target op= b` with a%s target: the target path and b are each laid down once" % ("n index" if sname == "index" else " field"),
+               "undecided" if (ex_all or not seqs_) else ("violated" if twice else "ok"),
+               ("emitted %s: a call inside the target path (`pool.fresh(40).v += 2`, `self.next().n += k`) runs twice; the value is read from one object and written to another"
+                % twice[:2]) if twice else "", cd.span, fn=cd.path, key="C15.once|opassign|%s" % sname)
         n += check_order(rep, "C15.order|opassign|%s" % sname,
                          "`target op= b` (+= -= *= /= %%=) with a%s target: the target's own sub-expressions are evaluated before b" % ("n index" if sname == "index" else " field"),
                          rows_all, ex_all, "lhs", "rhs", where=cd.span, fn=cd.path)
